@@ -12,17 +12,17 @@ from .. import build, sp
 ID = "C17"
 META = {
     "technique": "runtime monitoring: permutation/stability/last-wins/idempotence postconditions on the real SortFieldsAlphabetically/SortFieldsCustom/NormalizeFieldKeys transforms over an exhaustive colliding-key space",
-    "level_text": "Every entry with 0-5 fields over keys {a,A,b,B,c} (all collision patterns) is transformed by the three real middlewares - the custom sorter with every order list that is a sub-permutation of {a,A,b,c,zz} of length <= 3 in both case modes, both in-place modes - and the result is compared with models written from the statement; other blocks, entry type/key and all values must be untouched and a second application must change nothing.",
+    "level_text": "Every entry with 0-5 fields over keys {a,A,b,B,ab} (all collision patterns) is transformed by the three real middlewares - the custom sorter with every order list that is a sub-permutation of {a,A,b,ab,zz} of length <= 3 in both case modes, both in-place modes - and the result is compared with models written from the statement; other blocks, entry type/key and all values must be untouched and a second application must change nothing.",
     "level_note": "alphabetical order = Python string order of the keys (the repository sorts by key)",
 }
-RULE = ("case = (field-key sequence over {a,A,b,B,c}, middleware spec); all key sequences of length 0..5 (random 6..8 in thorough) x "
+RULE = ("case = (field-key sequence over {a,A,b,B,ab}, middleware spec); all key sequences of length 0..5 (random 6..8 in thorough) x "
         "{alphabetical, normalise, custom(order, case_sensitive)}; non-trivial = >= 2 fields whose keys collide case-insensitively or tie in "
         "the sort key; distinct = distinct (keys, middleware spec)")
 ASSUMPTIONS = ["field values are opaque (unique tokens) and must be carried unchanged"]
-MIN = {"alphabetical": (3000, 10000), "custom": (50000, 200000), "normalise": (3000, 10000), "idempotent": (50000, 200000), "order_rejected": (500, 2000)}
+MIN = {"alphabetical": (3000, 10000), "custom": (50000, 200000), "normalise": (3000, 10000), "idempotent": (50000, 200000), "order_rejected": (500, 2000), "pipeline_step": (50000, 300000)}
 
-KEYS = ["a", "A", "b", "B", "c"]
-ORDER_POOL = ["a", "A", "b", "c", "zz"]
+KEYS = ["a", "A", "b", "B", "ab"]          # case variants and a key that contains other keys
+ORDER_POOL = ["a", "A", "b", "ab", "zz"]
 
 
 def orders():
@@ -36,8 +36,8 @@ ORDERS = orders()
 
 
 def exhaustive(tier):
-    return ("all field-key sequences of length 0..5 over {a,A,b,B,c} x {alphabetical, normalise} and x every custom order "
-            "(sub-permutations of {a,A,b,c,zz} up to length 3, both case modes) for length <= 3; rotating order subset for longer")
+    return ("all field-key sequences of length 0..5 over {a,A,b,B,ab} x {alphabetical, normalise} and x every custom order "
+            "(sub-permutations of {a,A,b,ab,zz} up to length 3, both case modes) for length <= 3; rotating order subset for longer")
 
 
 def cases(tier, seed, shard, nshards):
@@ -56,10 +56,20 @@ def cases(tier, seed, shard, nshards):
             for oi in sel:
                 for cs in (False, True):
                     yield {"keys": list(ks), "mw": ["custom", list(ORDERS[oi]), cs]}
-    if tier == "thorough":
+    # pipelines: the same entry goes through 2-3 of the middlewares in a row (e.g. sort, normalise, sort again)
+    pidx = 0
+    basic = [["alpha"], ["norm"], ["custom", ["b", "a"], False], ["custom", ["A", "zz"], True]]
+    for n in (2, 3, 4):
+        for ks in itertools.product(KEYS, repeat=n):
+            for pipe in itertools.product(range(len(basic)), repeat=2 if n == 4 else 3):
+                pidx += 1
+                if pidx % nshards != shard or (tier == "quick" and n == 4 and (pidx // nshards) % 4):
+                    continue
+                yield {"keys": list(ks), "pipe": [basic[i] for i in pipe]}
+    if True:
         r = rng_for(seed, shard, "c17")
-        for _ in range(2000000 // nshards):
-            ks = [r.choice(KEYS + ["Author", "author", "AUTHOR", "é", "É"]) for _ in range(r.randint(6, 8))]
+        for _ in range(tier_pick(tier, 20000, 2000000) // nshards):
+            ks = [r.choice(KEYS + ["Author", "author", "AUTHOR", "é", "É", "title", "booktitle"]) for _ in range(r.choice([6, 7, 8, 8, 12, 30]))]
             which = r.random()
             if which < .2:
                 mw = ["alpha"]
@@ -70,7 +80,19 @@ def cases(tier, seed, shard, nshards):
             yield {"keys": ks, "mw": mw}
 
 
+_INSTANCES = {}
+
+
 def make_mw(spec, inplace):
+    """Instances are re-used across cases (a middleware object is meant to be applied to many libraries):
+    state leaking from one library into the next becomes visible."""
+    key = repr((spec, inplace))
+    if key not in _INSTANCES:
+        _INSTANCES[key] = _make_mw(spec, inplace)
+    return _INSTANCES[key]
+
+
+def _make_mw(spec, inplace):
     from bibtexparser import middlewares as mws
     if spec[0] == "alpha":
         return mws.SortFieldsAlphabeticallyMiddleware(allow_inplace_modification=inplace)
@@ -97,7 +119,36 @@ def model(spec, pairs):
     return [pairs[i] for i in idx]
 
 
+def check_pipe(case, ctx):
+    """The entry passes through several of the middlewares in a row (re-used instances, in place and in copy
+    mode); after every step the fields must equal the model folded over the steps so far."""
+    keys, pipe = case["keys"], case["pipe"]
+    pairs = [(k, "{Val %d of %s}" % (i, k.upper())) for i, k in enumerate(keys)]
+    out = []
+    for inplace in (False, True):
+        lib = build.library([["entry", "Article", "TheKey", [list(p) for p in pairs], "raw text", 3], ["icomment", "c"]])
+        want = list(pairs)
+        for step, spec in enumerate(pipe):
+            st, lib2 = sp.escape(lambda: make_mw(spec, inplace).transform(lib))
+            ctx.ran()
+            ctx.mon("pipeline_step")
+            if st == "raise":
+                return [Violation("raised", f"C17:pipeline:{spec[0]}:raised:{lib2.split(':')[0]}", dict(case=case, step=step, error=lib2))]
+            lib = lib2
+            want = model(spec, want)
+            got = [(f.key, f.value) for f in lib.blocks[0].fields] if sp.block_kind(lib.blocks[0]) == "entry" else None
+            if got != want:
+                prev = "+".join(s[0] for s in pipe[:step]) or "fresh"
+                out.append(Violation("fields-differ", f"C17:pipeline:{spec[0]}-after-{prev}", dict(case=case, step=step, inplace=inplace, got=got, want=want)))
+                return out
+    if len({k.lower() for k in keys}) < len(keys):
+        ctx.nontriv(case)
+    return out
+
+
 def check(case, ctx):
+    if "pipe" in case:
+        return check_pipe(case, ctx)
     keys, spec = case["keys"], case["mw"]
     out = []
     pairs = [(k, "{Val %d of %s}" % (i, k.upper())) for i, k in enumerate(keys)]
